@@ -8,7 +8,7 @@ ID = "C10"
 THEOREMS = ["C10_product_sound", "C10_product_sound_lax", "C10_product_sound_tcp", "C10_check_sound", "C10_product_sound_refined",
             "C10_dead_points", "C10_current_product_ok", "C10_current_product_ok_lax", "C10_current", "C10_current_tcp",
             "C10_current_refined", "C10_segmentation", "C10_segmentation_any", "C10_segmentation_tcb",
-            "C10_segmentation_current", "C10_segmentation_nonvacuous", "C10_dispatch_udp", "C10_dispatch_tcp_none",
+            "C10_segmentation_current", "C10_segmentation_pending", "C10_segmentation_tcb_new", "C10_identified_early", "C10_unidentified_forever", "C10_segmentation_nonvacuous", "C10_dispatch_udp", "C10_dispatch_tcp_none",
             "C10_dispatch_tcp_some", "C10_id_independent_of_ctx", "C10_dispatch_responders", "C10_no_signature_udp",
             "C10_no_signature_tcp", "C10_signature_udp", "C10_signature_tcp", "C10_known_covers", "C10_known_needed",
             "C10_known_witnesses", "C10_examples", "C10_ref_is_direct_reading", "C10_ref_tie_free", "SrcTie.src_protocol_ids", "SrcTie.src_smack_constants", "SrcTie.src_signatures_are_published", "Env.the_env_ok"]
